@@ -1,17 +1,19 @@
-"""Tie the hand-written model of the core functions (coq/theories/Buf.v) to the
+"""Tie the hand-written model (coq/theories/Buf.v, Iter.v, Drain.v, Traits.v, Io.v) to the
 source by translation.
 
-run(wd) regenerates, from E.REPO/src/lib.rs, a Gallina definition gen_f for
-every core function f that tools/rs2coq_core understands (add_mod, sub_mod and
-the inherent methods of CircularBuffer up to make_contiguous), and proves, for
-each of them separately,
+run(wd) regenerates, from E.REPO/src/{lib,iter,drain,io,embedded_io}.rs, a Gallina definition
+gen_f for every function f that tools/rs2coq_core understands (add_mod, sub_mod, the inherent
+methods of CircularBuffer up to make_contiguous, drop_range, the fill family, Index/IndexMut,
+Drop; translate_range_bounds, slice_take*, Iter / IterMut / IntoIter; Drain, CircularSlicePtr
+and Drain's destructor with its back-fill loop; the Write / Read / BufRead impls of the three io
+families), and proves, for each of them separately,
 
     forall args s w, gen_f args s w = f args s w          (coq/gen/CoreGenProofs.v)
 
-i.e. the regenerated model of f IS the hand-written model of f. The result
-names, per function, whether that holds now. A source edit of f after which
-gen_f still translates and is still proved equal cannot change anything any
-theorem about the model says about f.
+(`= ret (f args) s w` where the model's f is a pure function), i.e. the regenerated model of f
+IS the hand-written model of f. The result names, per function, whether that holds now. A
+source edit of f after which gen_f still translates and is still proved equal cannot change
+anything any theorem about the model says about f.
 
 Nothing is written inside the tracked tree: all files go to `wd`
 (default E.CACHE/coregen).
@@ -21,14 +23,22 @@ Nothing is written inside the tracked tree: all files go to `wd`
                     closed under the global context, and the translator did not
                     refuse a function it must understand,
       "translated": [f, ...]            in dependency order,
-      "skipped":    {f: reason}         not translated (not covered),
+      "skipped":    {f: reason}         not translated, or translated but not equal to the model
+                                        (a recorded discrepancy of the model): not covered,
       "proved":     [f, ...],
       "failed":     {f: first error line},
+      "items":      {f: name}           the name tools/srcmap (tools/srcfp.py) gives the source item
+                                        of every function this tool knows, e.g.
+                                        "Iter_advance_back_by": "Iter::advance_back_by",
+                                        "Drain_drop": "<Drain as Drop>::drop", "push_back":
+                                        "CircularBuffer::push_back", "slice_take": "slice_take@stable",
+                                        "io_write": "<CircularBuffer as Write>::write",
+      "conditional": {f: "lemma : statement"}   what is proved instead for the functions of DISCREPANCY,
       "generated_sha256": sha256 of CoreGen.v,
       "wall_s":     seconds,
       + "calls" {f: [callees]}, "hand_callees" {f: [untranslated callees whose
-        hand-written model the generated caller refers to]}, "root_failures"
-        [failed functions none of whose callees failed], "problems" [...],
+        hand-written model the generated caller refers to]}, "hand" {f: the model's name},
+        "root_failures" [failed functions none of whose callees failed], "problems" [...],
         "timings" {...}, "cached" bool }
 """
 
@@ -47,40 +57,70 @@ TOOL_DIR = os.path.join(E.VERIF, "tools", "rs2coq_core")
 TEMPLATE = os.path.join(E.COQ, "gen", "CoreGenProofs.v")
 ARITH = ["add_mod", "sub_mod"]
 JOBS = 8
+THEORIES = ["Machine", "Buf", "Iter", "Drain", "Traits", "Io"]
 
-# arguments of the hand-written model functions (name, Coq type), in order
-ARGS = {
-    "add_mod": [("x", "Z"), ("y", "Z"), ("m", "Z")],
-    "sub_mod": [("x", "Z"), ("y", "Z"), ("m", "Z")],
-    "get_maybe_uninit": [("index", "Z")], "get_maybe_uninit_mut": [("index", "Z")],
-    "get": [("index", "Z")], "get_mut": [("index", "Z")],
-    "nth_front": [("index", "Z")], "nth_front_mut": [("index", "Z")],
-    "nth_back": [("index", "Z")], "nth_back_mut": [("index", "Z")],
-    "push_back": [("item", "elem")], "try_push_back": [("item", "elem")],
-    "push_front": [("item", "elem")], "try_push_front": [("item", "elem")],
-    "swap": [("i", "Z"), ("j", "Z")],
-    "swap_remove_back": [("index", "Z")], "swap_remove_front": [("index", "Z")],
-    "truncate_back": [("n", "Z")], "truncate_front": [("n", "Z")],
-    "remove": [("index", "Z")],
+# statements that are not of the general form (see expected_statement)
+SPECIAL = {
+    # the model's csp has no base pointer: the struct exists only on the first slot of the array
+    "CircularSlicePtr_new": "forall (n : Z) (s : cbuf) (w : world), "
+                            "gen_CircularSlicePtr_new {| soff := 0; slen := n |} s w = ret (csp_new n) s w",
+}
+for _p in ("io", "eio", "aio"):
+    # the model hands back (count, bytes); the translation (bytes, count): `&mut` parameters come first
+    SPECIAL[_p + "_read"] = ("forall (x1 : list elem) (s : cbuf) (w : world), "
+                             "gen_%s_read x1 s w = (r <- %s_read x1;; ret (snd r, fst r)) s w" % (_p, _p))
+# lemmas that hold for states whose capacity is not negative (every state the crate can be in: N is a usize;
+# the model's cap is a Z). `&other[other.len() - N..]` is in bounds for that reason only.
+PRECOND = {f: "0 <= cap s" for f in ("extend_from_slice", "io_write", "eio_write", "aio_write")}
+# functions whose faithful translation is NOT equal to the hand-written model (a finding about the model):
+# reported as skipped, with what is proved instead {f: (lemma, statement)}. None at present: the stable
+# slice_take_first_mut / slice_take_last_mut (which leave `&mut []` behind on None, core::mem::take) and
+# IterMut::next / next_back used to be modelled by the non-mut functions; the model now says what the source says.
+WHY_DISCREPANCY = "the hand-written model differs from the source; proved instead: %s"
+DISCREPANCY = {}
+# the loops of the translated functions: generated Fixpoint -> statement of its equality with the model's loop
+LOOPS = {
+    "gen_Drain_drop_loop1": "forall (fuel : nat) (y1 : Z) (y2 y3 : csp) (s : cbuf) (w : world), "
+                            "gen_Drain_drop_loop1 fuel y1 y2 y3 s w = drain_fill_loop fuel y2 y3 y1 s w",
+    "gen_fill_spare_loop1": "forall (fuel : nat) (y1 : elem) (s : cbuf) (w : world), "
+                            "gen_fill_spare_loop1 fuel y1 s w = fill_spare_loop fuel y1 s w",
+    "gen_fill_spare_with_loop1": "forall (fuel : nat) (s : cbuf) (w : world), "
+                                 "gen_fill_spare_with_loop1 fuel s w = fill_spare_with_loop fuel s w",
 }
 
+def binder_names(section, f):
+    """the names the lemma gen_f_eq of the template binds, in order"""
+    m = re.search(r"Lemma gen_%s_eq\s*:\s*forall ([^,]*)," % re.escape(f), section)
+    return m.group(1).split() if m else None
 
-def hand_name(f):
-    return "get_" if f == "get" else f
 
-
-def expected_statement(f):
-    """the statement of gen_f_eq as coqc's Check prints it (whitespace-normalised)"""
-    binders = list(ARGS.get(f, [])) + [("s", "cbuf"), ("w", "world")]
+def expected_statement(t, section):
+    """the statement of gen_f_eq as coqc's Check prints it (whitespace-normalised):
+         forall args s w, gen_f args s w = hand args s w            (the model of f is a computation)
+         forall args s w, gen_f args s w = ret (hand args) s w      (the model of f is a pure function)
+       with the argument types the translator gave gen_f; t: the translator's summary of f"""
+    f = t["name"]
+    if f in SPECIAL:
+        return SPECIAL[f]
+    names = binder_names(section, f)
+    types = list(t["params"]) + ["cbuf", "world"]
+    if names is None or len(names) != len(types) or len(set(names)) != len(names) or names[-2:] != ["s", "w"]:
+        return "<the lemma must bind one name per argument of gen_%s, then s and w>" % f
     groups = []
-    for n, t in binders:
-        if groups and groups[-1][1] == t:
+    for n, ty in zip(names, types):
+        if groups and groups[-1][1] == ty:
             groups[-1][0].append(n)
         else:
-            groups.append(([n], t))
-    b = " ".join("(%s : %s)" % (" ".join(ns), t) for ns, t in groups)
-    a = "".join(n + " " for n, _ in ARGS.get(f, []))
-    return "forall %s, gen_%s %ss w = %s %ss w" % (b, f, a, hand_name(f), a)
+            groups.append(([n], ty))
+    b = " ".join("(%s : %s)" % (" ".join(ns), ty) for ns, ty in groups)
+    a = "".join(n + " " for n in names[:-2])
+    if f in PRECOND:
+        return "forall %s, %s -> gen_%s %ss w = %s %ss w" % (b, PRECOND[f], f, a, t["hand"], a)
+    if t.get("pure_hand"):
+        h = (t["hand"] + " " + a).strip()
+        h = "(%s)" % h if " " in h else h
+        return "forall %s, gen_%s %ss w = ret %s s w" % (b, f, a, h)
+    return "forall %s, gen_%s %ss w = %s %ss w" % (b, f, a, t["hand"], a)
 
 
 def qflags(wd):
@@ -130,8 +170,8 @@ def translate(exe, wd):
 
 
 def theories_ready():
-    """Machine.vo and Buf.vo exist and are not older than their sources"""
-    for m in ("Machine", "Buf"):
+    """the .vo of the model exist and are not older than their sources"""
+    for m in THEORIES:
         v = os.path.join(E.COQ, "theories", m + ".v")
         vo = os.path.join(E.COQ, "theories", m + ".vo")
         if not os.path.exists(vo) or os.path.getmtime(vo) < os.path.getmtime(v):
@@ -196,38 +236,48 @@ def transitive(calls, f):
     return seen
 
 
-def prove_one(wd, f, parts, calls):
+def needed(t, calls, loops):
+    """the functions whose compiled lemmas the proof of f imports: the ones f calls, and among the
+    ones those call, the ones that are never opened (the arithmetic functions, the owners of loops)"""
+    f = t["name"]
+    direct = list(calls.get(f, []))
+    rest = [g for g in transitive(calls, f) if g not in direct and g != f and (g in ARITH or loops.get(g))]
+    return direct + rest
+
+
+def prove_one(wd, t, parts, calls, loops, waits):
     """-> (f, proved?, reason)"""
+    f = t["name"]
     sec = parts.get("fn " + f)
     if sec is None:
         return f, False, "coq/gen/CoreGenProofs.v has no section `fn %s`" % f
-    deps = [g for g in ARITH if g != f and g in transitive(calls, f)]
+    deps = [g for g in needed(t, calls, loops) if g not in DISCREPANCY]
+    bad = [g for g in deps if not waits[g].result()[1]]
+    if bad:
+        return f, False, "not attempted: the lemmas of %s, which its proof imports, are not available" % ", ".join(bad)
     text = "(* section `fn %s` of coq/gen/CoreGenProofs.v *)\nFrom CBG Require Import CGCommon.\n" % f
+    text += "".join("From CBG Require Import CG_%s.\n" % g for g in deps)
     text += parts["prelude"]
-    marks = []          # (first line, last line, function)
-    for g in deps + [f]:
-        a = text.count("\n") + 1
-        text += parts["fn " + g]
-        marks.append((a, text.count("\n"), g))
+    text += sec
     name = "CG_%s.v" % f
     with open(os.path.join(wd, name), "w") as fh:
         fh.write(text)
     rc, out = coqc(wd, name, timeout=400)
     if rc != 0:
         line, msg = first_error(out)
-        where = next((g for a, b, g in marks if line is not None and a <= line <= b), None)
-        if where is not None and where != f:
-            return f, False, "callee %s is not proved equal to its model: %s" % (where, msg)
         return f, False, msg
     rep = parse_report(out)
-    thm = "gen_%s_eq" % f
-    if thm not in rep:
-        return f, False, "theorem %s not reported by coqc" % thm
-    stmt, ax = rep[thm]
-    if stmt != expected_statement(f):
-        return f, False, "%s has statement `%s`, expected `%s`" % (thm, stmt, expected_statement(f))
-    if ax:
-        return f, False, "%s depends on assumptions: %s" % (thm, "; ".join(ax))
+    first = DISCREPANCY[f] if f in DISCREPANCY else ("gen_%s_eq" % f, expected_statement(t, sec))
+    want = [first] + [(L + "_eq", LOOPS.get(L, "<no statement recorded for this loop>"))
+                                                              for L in t.get("loops", [])]
+    for thm, stmt_want in want:
+        if thm not in rep:
+            return f, False, "theorem %s not reported by coqc" % thm
+        stmt, ax = rep[thm]
+        if stmt != stmt_want:
+            return f, False, "%s has statement `%s`, expected `%s`" % (thm, stmt, stmt_want)
+        if ax:
+            return f, False, "%s depends on assumptions: %s" % (thm, "; ".join(ax))
     return f, True, ""
 
 
@@ -238,12 +288,12 @@ def prove_all(wd, summary, res):
             res["problems"].append("coq/gen/CoreGenProofs.v has no part `%s`" % k)
             return
     names = [t["name"] for t in summary["translated"]]
-    calls = {t["name"]: t["calls"] for t in summary["translated"]}
+    calls = {t["name"]: t["calls"] for t in summary["translated"]}      # insertion order = dependency order
 
     # the common part: compiled once, reused while its text and the theories are unchanged
     t = time.time()
     common = parts["common"]
-    key = sha(common, read(os.path.join(E.COQ, "theories", "Machine.v")), read(os.path.join(E.COQ, "theories", "Buf.v")))
+    key = sha(common, *[read(os.path.join(E.COQ, "theories", m + ".v")) for m in THEORIES])
     keyfile = os.path.join(wd, "CGCommon.key")
     vo = os.path.join(wd, "CGCommon.vo")
     if not (os.path.exists(vo) and os.path.exists(keyfile) and read(keyfile) == key):
@@ -263,11 +313,20 @@ def prove_all(wd, summary, res):
     res["timings"]["common"] = round(time.time() - t, 2)
 
     t = time.time()
+    loops = {x["name"]: x.get("loops", []) for x in summary["translated"]}
+    # in dependency order, so that a proof only ever waits for proofs that were started before it
+    waits = {}
     with concurrent.futures.ThreadPoolExecutor(max_workers=JOBS) as ex:
-        results = list(ex.map(lambda f: prove_one(wd, f, parts, calls), names))
+        for x in summary["translated"]:
+            waits[x["name"]] = ex.submit(prove_one, wd, x, parts, calls, loops, waits)
+        results = [waits[x["name"]].result() for x in summary["translated"]]
     res["timings"]["proofs"] = round(time.time() - t, 2)
     for f, ok, why in results:
-        if ok:
+        if ok and f in DISCREPANCY:
+            res["conditional"][f] = "%s : %s" % DISCREPANCY[f]
+            res["skipped"][f] = WHY_DISCREPANCY % DISCREPANCY[f][0]
+            res["translated"].remove(f)
+        elif ok:
             res["proved"].append(f)
         else:
             res["failed"][f] = why
@@ -287,7 +346,7 @@ def run(wd=None):
     t0 = time.time()
     wd = wd or os.path.join(E.CACHE, "coregen")
     os.makedirs(wd, exist_ok=True)
-    res = {"ok": False, "translated": [], "skipped": {}, "proved": [], "failed": {}, "generated_sha256": None,
+    res = {"ok": False, "translated": [], "skipped": {}, "proved": [], "failed": {}, "items": {}, "conditional": {}, "generated_sha256": None,
            "wall_s": None, "calls": {}, "hand_callees": {}, "root_failures": [], "problems": [], "timings": {},
            "cached": False}
 
@@ -313,6 +372,10 @@ def run(wd=None):
     res["skipped"] = summary["skipped"]
     res["calls"] = {x["name"]: x["calls"] for x in summary["translated"]}
     res["hand_callees"] = {x["name"]: x["hand_callees"] for x in summary["translated"] if x["hand_callees"]}
+    # the name tools/srcmap gives the source item of every function this tool knows (translated or not)
+    res["items"] = dict(summary.get("items", {}))
+    res["hand"] = {x["name"]: x["hand"] for x in summary["translated"]}
+    res["preconditions"] = {f: c for f, c in PRECOND.items() if f in res["translated"]}
     gtext = read(gen)
     res["generated_sha256"] = sha(gtext)
     if rc != 0:
@@ -326,8 +389,8 @@ def run(wd=None):
             return done()
 
     # same generated text, same template, same model: same answer
-    key = sha(gtext, read(TEMPLATE), read(os.path.join(E.COQ, "theories", "Machine.v")),
-              read(os.path.join(E.COQ, "theories", "Buf.v")), json.dumps(ARGS, sort_keys=True))
+    key = sha(gtext, read(TEMPLATE), json.dumps(summary, sort_keys=True), json.dumps([SPECIAL, LOOPS, DISCREPANCY, PRECOND], sort_keys=True),
+              *[read(os.path.join(E.COQ, "theories", m + ".v")) for m in THEORIES])
     cache = os.path.join(wd, "result_cache.json")
     if os.path.exists(cache):
         try:
@@ -335,8 +398,11 @@ def run(wd=None):
         except ValueError:
             c = {}
         if c.get("key") == key:
-            for k in ("proved", "failed", "root_failures"):
+            for k in ("proved", "failed", "root_failures", "conditional"):
                 res[k] = c[k]
+            for f in res["conditional"]:
+                res["skipped"][f] = WHY_DISCREPANCY % DISCREPANCY[f][0]
+                res["translated"].remove(f)
             res["cached"] = True
 
     if not res["cached"]:
@@ -351,7 +417,7 @@ def run(wd=None):
                    for p in res["problems"]):
             with open(cache, "w") as fh:
                 json.dump({"key": key, "proved": res["proved"], "failed": res["failed"],
-                           "root_failures": res["root_failures"]}, fh)
+                           "root_failures": res["root_failures"], "conditional": res["conditional"]}, fh)
 
     res["ok"] = (not res["problems"] and bool(res["translated"]) and not res["failed"]
                  and sorted(res["proved"]) == sorted(res["translated"]))
